@@ -643,6 +643,12 @@ def body(chk, db, cfgname):
     r7 = chk.rule("C13-R7", "the default component set, together with the exchange aliases set() adds, reaches every index quadruple: Index1 and Index3 run over all indices, Index2 / Index4 over all indices or from their partner upwards, nothing is filtered", "F1 full-range loops", 1)
     check_default_quadruples(r7, db, cfgname)
 
+    # operator()(Indices) returns the stored entry on a hit and creates it on a miss: the look-up result is dereferenced on the
+    # found edge only (rule C17-R8, instances of IndexContainer4), re-evaluated under C13-R6
+    from pv.check import FilteredRule, ViewCheck
+    from checks import c17
+    rr6 = chk.rule("C13-R6", "set(Indices) and operator()(Indices) hand out the entry stored under the requested quadruple", "F1 dominance", 1)
+    c17.body(ViewCheck(chk, {"C17-R8": FilteredRule(rr6, lambda st: "Pomerol::IndexContainer4" in st)}), db, cfgname)
     r8 = chk.rule("C13-R8", "the container key IndexCombination4 is ordered by a strict total order on (Index1..Index4), and its ==/!= agree with it: every index quadruple is its own entry", "F8 guards (comparator bodies evaluated on all pairs of a small domain)", 3)
     from checks.orders import check_key_class
     check_key_class(r8, db, cfgname, "Pomerol::IndexCombination4", ["Index1", "Index2", "Index3", "Index4"])
